@@ -13,7 +13,7 @@ RULE = ("seeded multi-track pieces: 1-3 tracks of unequal length (incl. empty tr
         "in force / coverage / sound exact or subset / only cut fragments shrink / inputs unchanged. Non-trivial: >= 2 bars "
         "and (>= 2 tracks or a signature change).")
 PLAN = {"quick": {"cases": 1500, "jobs": 4, "timeout": 600},
-        "thorough": {"cases": 80000, "jobs": 16, "timeout": 3000, "budget_s": 420}}
+        "thorough": {"cases": 800000, "jobs": 16, "timeout": 3000, "budget_s": 360}}
 FLOORS = {"quick": {"bars.bar_length.armed": 2000, "bars.sound_exact.armed": 900, "bars.sound_subset.armed": 900,
                     "bars.only_cut_fragments_shrink.armed": 700, "bars.coverage.armed": 1000, "c09.ragged": 400,
                     "c09.signature_change": 400, "c09.note_crosses_bar": 400},
